@@ -139,6 +139,9 @@ func ZZ_C08_Delimiter(dl, stripD, max, L, frag int) {
 	if dl == 2 {
 		delim = "\r\n"
 	}
+	if dl == 3 {
+		delim = "--\n"
+	}
 	src, stream := zzAdversary(L, frag)
 	src.eofWithData = false // outside the claim for this decoder (see DESIGN.md C04/C08)
 	dec := DelimiterCodec(max, delim, stripD != 0)
